@@ -50,3 +50,20 @@ chk('C15', 'exploration',
     '115 base rules x every derived-scheme constructor x mirror words x box alphabet x all monomials up to the stated exactness (5.3 M comparisons quick, 17.9 M thorough): weight sums, monomial exactness, mirror involution, symmetric vs non-symmetric Duffy, monotone log-convergence to closed forms.',
     'Trusted: exact monomial integrals; mirror involution demanded to 1 ulp on the mirrored coordinate (bitwise is false on correct code because 1-(1-p) != p in binary floating point).',
     'exhaustive enumeration of a finite configuration space against exact monomial integrals', 'DESIGN.md 4/C15', 'tables')
+chk('C04', 'exploration',
+    'Every ordered element pair of the dyadic rectangle universes (no aspect filter, incl. a 2^-10 time grid where entries underflow towards 1e-122), both switch values: acausal => exactly 0.0, causal => >= -1e-15 sqrt(DD\') and > 0 whenever a rigorous mpmath lower bound of the exact entry exceeds 1e-250; every (trial element, time alphabet incl. start/end +-1 ulp, point alphabet) for evaluate / evaluate_exact / potential / evaluate_vector; every leaf-set-distinct mesh of the BFS graphs: bilform_matrix (inline and serial) block lower-triangular with rows = test.',
+    'Known finding F9 (closed-form path returns -7e-22 where the exact entry is 1e-122) keyed by call site in known_findings.json; pool path covered by C17.',
+    'exhaustive enumeration of bounded configuration spaces (pair universe, time/point alphabets, BFS mesh states) with exact-zero / sign oracles', 'DESIGN.md 4/C04', 'E5-universe')
+chk('C07', 'exploration',
+    'Every trial element of the universes x time alphabet (parabolic ratio <= 16) x point alphabet (end points, 0, L, relative distances 1e-5..1 outside either end through seam/corners, interior, d_a=d_b flip points, Gauss nodes of all other leaves) against the independent pointwise oracle with the class tolerances of the property; evaluate_exact on the own straight side (1e-7); evaluate_vector bitwise; graded integral of evaluate over test elements vs bilform within the bound implied by the pointwise tolerances.',
+    'Continuous t, x_hat represented by alphabets built from the comparison points of the code; oracle trusted after validation.',
+    'exhaustive enumeration over finite alphabets against a reference model', 'DESIGN.md 4/C07', 'E5-universe')
+chk('C11', 'exploration',
+    'Every ordered causal pair (incl. diagonal) of the universes x all 15 non-trivial combinations of {whole, time halves, space halves, quarters} on both sides x both switch values, pieces being real children from real bisection; sum of pieces vs whole at 1e-7 sqrt(DD\'); virtual children of DummyElement.uniform_refinement give bitwise the same entries as real children.',
+    'D from the entry oracle; aspect <= 32 for every piece.', 'exhaustive enumeration of the pair universe with a self-consistency (additivity) oracle', 'DESIGN.md 4/C11', 'E5-universe')
+chk('C12', 'exploration',
+    'Every ordered causal pair of the universes: exchange of space intervals (bitwise), every admissible common time shift (bitwise), every element of the symmetry group of the squares (8) and of the circle (rotations by the finest element, reflection) whose image exists (1e-7 sqrt(DD\')); orbits mixing interior and seam-crossing members counted.',
+    'L-shape: exchange and time shift only (no symmetry group used).', 'exhaustive enumeration of the pair universe x symmetry group with an invariance oracle', 'DESIGN.md 4/C12', 'E5-universe')
+chk('C13', 'exploration',
+    'Every leaf-set-distinct mesh state of the BFS graphs on the closed curves, uniform refinements and deep roots (aspect <= 32): lambda_min of the diagonally scaled symmetric part of bilform_matrix > 0.01, every 4x4 child block and its three scalings positive, both switch values.',
+    'Mesh sizes bounded by the listed depths (largest mesh in the evidence).', 'exhaustive enumeration of BFS mesh states with an eigenvalue oracle', 'DESIGN.md 4/C13', 'E1-mesh-explorer')
